@@ -161,7 +161,7 @@ class Exec:
             highs = [(s1, None)] if sl.upper is None else self.ev(sl.upper, s1, d)
             for s2, hi in highs:
                 s2 = s2.copy()
-                n = s2.length(base.term)
+                n = s2.length(base.term, base.ty[1])
                 lo_t = z3.IntVal(0) if lo is None else self.as_int(lo, s2).term
                 hi_t = n if hi is None else self.as_int(hi, s2).term
                 lo_c = z3.If(lo_t < 0, z3.If(lo_t + n < 0, 0, lo_t + n), z3.If(lo_t > n, n, lo_t))
@@ -169,7 +169,7 @@ class Exec:
                 ety = base.ty[1]
                 r = s2.new_list(ety, "slice")
                 ln = z3.If(hi_c - lo_c > 0, hi_c - lo_c, 0)
-                s2.set_len(r.term, ln)
+                s2.set_len(r.term, ln, ety)
                 i = z3.Int(fresh_name("i_sl"))
                 src_el = s2.elems(base.term, ety); new_el = z3.FreshConst(src_el.sort(), "slice_el")
                 s2.assume(z3.ForAll([i], z3.Implies(z3.And(0 <= i, i < ln), z3.Select(new_el, i) == z3.Select(src_el, i + lo_c))))
@@ -282,8 +282,8 @@ class Exec:
     def list_concat(self, st, l, r, hint="cat"):
         ety = l.ty[1]
         res = st.new_list(ety, hint)
-        nl, nr = st.length(l.term), st.length(r.term)
-        st.set_len(res.term, nl + nr)
+        nl, nr = st.length(l.term, ety), st.length(r.term, ety)
+        st.set_len(res.term, nl + nr, ety)
         i = z3.Int(fresh_name("i_cat"))
         for part in (("val", "none") if ety[0] == "opt" else ("val",)):
             el, er = st.elems(l.term, ety, part), st.elems(r.term, ety, part)
@@ -476,7 +476,7 @@ class Exec:
                 return t
             i = z3.Int(fresh_name("i_in"))
             el = st.elems(coll_.term, ety)
-            n = st.length(coll_.term)
+            n = st.length(coll_.term, ety)
             if x.ty[0] == "none":
                 if ety[0] != "opt":
                     return z3.BoolVal(False)
@@ -539,7 +539,7 @@ class Exec:
             if ety[0] == "none":
                 raise Unsupported("list literal of None without annotation")
             r = s1.new_list(ety, "litlist")
-            s1.set_len(r.term, z3.IntVal(len(vs)))
+            s1.set_len(r.term, z3.IntVal(len(vs)), ety)
             for i, v in enumerate(vs):
                 s1.list_set(r, mkint(i), v, check=False)
                 if strip_opt(ety)[0] == "ref" and v.ty[0] != "none":
